@@ -302,7 +302,7 @@ func genRetained(t *rapid.T) Retained {
 
 func TestRetained(t *testing.T) {
 	pbt.Run(t, pbt.Sub[Retained]{
-		Name: "retained", Quick: 24000, Thorough: 800000,
+		Name: "retained", Quick: 24000, Thorough: 500000,
 		Gen: genRetained, Check: checkRetained,
 		EnumDesc: "all ordered pairs and (first, second, first-again) triples of the 12 fixed template instances plus a second P2PKH and a second inscription, without and with the caller overwriting what the first inspection returned",
 		Enum: func(tier string, yield func(Retained)) {
